@@ -63,6 +63,9 @@ def menu(d):
     # after changing into the directory (working directory as part of the history)
     M["rel_projA"] = ("load_rel", os.path.join(d, "projA"))
     M["rel_projB"] = ("load_rel", os.path.join(d, "projB"))
+    # file-system events: rewrite the included file (the outcome of a load may depend on the files it includes *now*)
+    M["fs_sub_v2"] = ("fs", "v2")
+    M["fs_sub_v1"] = ("fs", "v1")
     M["bad_inc_call"] = ("loads", H + inc("sub.xbb") + "\nint n = 8\nSub(y=1) | [0, 1]\n")
     M["bad_inc_syntax"] = ("loads", H + inc("broken.xbb") + "\nG | 0\n")
     M["bad_inc_second"] = ("load", os.path.join(d, "main_second_bad.xbb"))
@@ -81,10 +84,15 @@ def menu(d):
     return M
 
 
+SUB = {"v1": "name Sub\nversion 1.0\n\nfloat n = 0.25\nA({x}, n) | 0\nB | [1, 0]\n",
+       "v2": "name Sub\nversion 1.0\n\nfloat n = 0.75\nC(n, {x}) | 1\nB | [0, 1]\nD | 0\n"}
+USES_SUB = ("ok_inc", "ok_inc_file", "bad_inc_call", "bad_inc_second")
+
+
 def write_files(d):
     os.makedirs(d, exist_ok=True)
     w = lambda f, t: open(os.path.join(d, f), "w").write(t)
-    w("sub.xbb", "name Sub\nversion 1.0\n\nfloat n = 0.25\nA({x}, n) | 0\nB | [1, 0]\n")
+    w("sub.xbb", SUB["v1"])
     w("broken.xbb", "name Broken\nversion 1.0\n\nint n = 3\nG( | 0\n")
     w("main_ok.xbb", H + 'include "sub.xbb"\n\nint n = 2\nSub(x=n) | [1, 2]\n')
     for proj, val, modes in (("projA", "0.5", "[1, 0]"), ("projB", "7", "[0, 1]")):
@@ -94,10 +102,13 @@ def write_files(d):
     w("main_second_bad.xbb", H + 'include "sub.xbb"\ninclude "broken.xbb"\n\nSub(x=1) | [1, 2]\n')
 
 
-def outcome(ev):
-    """run one event in this process (no reset!) -> (digest string, short description)"""
+def outcome(ev, d=None):
+    """run one event in this process (no reset!) -> (digest string, short description, program); `d` (the
+    directory of the include files) is replaced in messages so that outcomes are comparable between runs"""
     import blackbird
     kind, arg = ev
+    if kind == "fs":
+        return "fs:" + arg, "file system event " + arg, None
     try:
         if kind == "load_rel":
             os.chdir(arg)
@@ -109,6 +120,8 @@ def outcome(ev):
         p = None
         c = ("EXC", type(e).__name__, str(e.args[0]) if e.args else str(e))
     r = repr(c)
+    if d:
+        r = r.replace(d, "<D>")
     return hashlib.sha1(r.encode()).hexdigest()[:16], r[:300], p
 
 
@@ -118,13 +131,27 @@ def state_digest():
 
 
 def _exec_history(task):
-    d, hist = task
-    M = menu(d)
-    out = []
-    for k in hist:
-        dg, desc, _ = outcome(M[k])
-        out.append((dg, desc, state_digest()))
-    return out
+    """each history works on its own copy of the include files, starting at version v1"""
+    import shutil
+    import tempfile
+    d0, hist = task
+    d = tempfile.mkdtemp(prefix="h", dir=d0)
+    try:
+        write_files(d)
+        M = menu(d)
+        out = []
+        ver = "v1"
+        for k in hist:
+            if M[k][0] == "fs":
+                ver = M[k][1]
+                open(os.path.join(d, "sub.xbb"), "w").write(SUB[ver])
+            dg, desc, _ = outcome(M[k], d)
+            sd, sdesc = state_digest()
+            out.append((dg, desc.replace(d, "<D>"), (hashlib.sha1((sd + ver).encode()).hexdigest()[:16], sdesc.replace(d, "<D>") + " files=" + ver), ver))
+        return out
+    finally:
+        os.chdir("/")
+        shutil.rmtree(d, ignore_errors=True)
 
 
 def _hist(task):
@@ -156,10 +183,13 @@ def _walk_mutables(obj, seen, out, path, depth=0):
 def _exec_sharing(task):
     """two consecutive successful loads: no shared mutable objects; mutating one leaves the other unchanged"""
     import numpy as np
-    d, k1, k2 = task
+    import tempfile
+    d0, k1, k2 = task
+    d = tempfile.mkdtemp(prefix="s", dir=d0)
+    write_files(d)
     M = menu(d)
-    _, _, p1 = outcome(M[k1])
-    _, _, p2 = outcome(M[k2])
+    _, _, p1 = outcome(M[k1], d)
+    _, _, p2 = outcome(M[k2], d)
     if p1 is None or p2 is None:
         return None
     a, b = {}, {}
@@ -191,7 +221,7 @@ def _exec_sharing(task):
     if before != after:
         return ("mutation-leaks", "mutating the first program changed the second")
     # a third load of k2 must still equal the pristine-in-this-process second load
-    dg3, _, p3 = outcome(M[k2])
+    dg3, _, p3 = outcome(M[k2], d)
     if p3 is None or repr(observe.prog_canon(p3)) != before:
         return ("mutation-leaks-into-later-load", "load after mutating earlier results differs")
     return None
@@ -206,15 +236,27 @@ import sys, json, os, warnings
 warnings.simplefilter('ignore')
 sys.path.insert(0, %(verif)r)
 from bbv.props import c12
-M = c12.menu(%(d)r)
-dg, desc, _ = c12.outcome(M[%(k)r])
-print(json.dumps([dg, desc]))
+print(json.dumps(c12.pristine_outcome(%(d)r, %(k)r, %(ver)r)))
 """
 
 
+def pristine_outcome(d0, k, ver):
+    import shutil
+    import tempfile
+    d = tempfile.mkdtemp(prefix="p", dir=d0)
+    try:
+        write_files(d)
+        open(os.path.join(d, "sub.xbb"), "w").write(SUB[ver])
+        dg, desc, _ = outcome(menu(d)[k], d)
+        return [dg, desc]
+    finally:
+        os.chdir("/")
+        shutil.rmtree(d, ignore_errors=True)
+
+
 def _pristine(task):
-    d, k, verif = task
-    code = PRISTINE % {"verif": verif, "d": d, "k": k}
+    d, k, ver, verif = task
+    code = PRISTINE % {"verif": verif, "d": d, "k": k, "ver": ver}
     r = subprocess.run([sys.executable, "-c", code], capture_output=True, text=True, env=os.environ)
     if r.returncode != 0:
         raise RuntimeError("pristine run of %s failed: %s" % (k, r.stderr[-500:]))
@@ -243,7 +285,10 @@ def run(ctx):
     keys = list(M)
     V = common.Violations(keep=6)
     # (1) pristine outcomes, fresh interpreters (cold ANTLR caches)
-    PR = dict(zip(keys, pool.pmap(_pristine, [(d, k, ctx.verif) for k in keys], chunk=1)))
+    pk = [(k, "v1") for k in keys if M[k][0] != "fs"] + [(k, "v2") for k in USES_SUB]
+    PRV = dict(zip(pk, pool.pmap(_pristine, [(d, k, ver, ctx.verif) for k, ver in pk], chunk=1)))
+    pr = lambda k, ver: PRV[(k, ver if k in USES_SUB else "v1")]
+    PR = {k: PRV[(k, "v1")] for k in keys if M[k][0] != "fs"}
     warm_antlr(M)
     # sanity: the import-time state of the parent
     s0 = state_digest()
@@ -264,13 +309,13 @@ def run(ctx):
             steps = r[1]
             transitions += 1
             k = hist[-1]
-            dg, desc, (sd, sdesc) = steps[-1]
-            src = steps[-2][2][0] if len(steps) > 1 else s0[0]
+            dg, desc, (sd, sdesc), ver = steps[-1]
+            src = steps[-2][2][0] if len(steps) > 1 else None
             succ[src].add(sd)
             if sd != src:
                 nontrivial += 1
-            if dg != PR[k][0]:
-                V.add("C12/outcome-depends-on-history:%s" % classify(hist, k), {"history": list(hist)}, "after %r, %s gives %s ; pristine %s" % (list(hist[:-1]), k, desc[:160], PR[k][1][:160]))
+            if M[k][0] != "fs" and dg != pr(k, ver)[0]:
+                V.add("C12/outcome-depends-on-history:%s" % classify(hist, k), {"history": list(hist)}, "after %r, %s gives %s ; pristine (files %s) %s" % (list(hist[:-1]), k, desc[:160], ver, pr(k, ver)[1][:160]))
             if sd not in seen:
                 seen[sd] = (hist, sdesc)
                 nxt.append(hist)
@@ -290,13 +335,15 @@ def run(ctx):
         if r == "TIMEOUT" or r[0] != "ok":
             V.add("C12/no-outcome", {"history": list(h)}, repr(r)[:300])
             continue
-        for i, (dg, desc, _) in enumerate(r[1]):
+        for i, (dg, desc, _, ver) in enumerate(r[1]):
             raw_steps += 1
-            outcomes_per_script[h[i]].add(dg)
-            if dg != PR[h[i]][0]:
-                V.add("C12/outcome-depends-on-history:%s" % classify(h[:i + 1], h[i]), {"history": list(h[:i + 1])}, "after %r, %s gives %s ; pristine %s" % (list(h[:i]), h[i], desc[:160], PR[h[i]][1][:160]))
+            if M[h[i]][0] == "fs":
+                continue
+            outcomes_per_script[(h[i], ver if h[i] in USES_SUB else "v1")].add(dg)
+            if dg != pr(h[i], ver)[0]:
+                V.add("C12/outcome-depends-on-history:%s" % classify(h[:i + 1], h[i]), {"history": list(h[:i + 1])}, "after %r, %s gives %s ; pristine (files %s) %s" % (list(h[:i]), h[i], desc[:160], ver, pr(h[i], ver)[1][:160]))
     # (4) sharing between programs returned by consecutive loads
-    oks = [k for k in keys if PR[k][1].startswith("('OK'")]
+    oks = [k for k in keys if k in PR and PR[k][1].startswith("('OK'")]
     pairs = [(d, a, b) for a in oks for b in oks]
     res = pool.pmap(_sharing, pairs, chunk=4)
     for (_, a, b), r in zip(pairs, res):
@@ -309,7 +356,7 @@ def run(ctx):
            "bfs": {"states": len(seen), "transitions": transitions, "state_changing_transitions": nontrivial, "events": len(keys)},
            "raw_histories": {"max_length": L, "histories": len(raw), "steps_compared": raw_steps}, "sharing_pairs": len(pairs),
            "distinct_outcomes_per_script_max": max(len(v) for v in outcomes_per_script.values()) if outcomes_per_script else 0,
-           "pristine_outcomes": {k: v[1][:60] for k, v in PR.items()},
+           "pristine_outcomes": {"%s@%s" % k: v[1][:60] for k, v in PRV.items()},
            "evaluations": transitions + raw_steps + len(pairs), "distinct_nontrivial": len(raw),
            "rule": "states = canonical content of every module-level mutable object of blackbird.* after a history; transitions = real load/loads calls, each history executed in a fresh fork of a never-used import; "
                    "every transition's outcome is compared with the script's outcome in a fresh interpreter", "exhaustive": True}
@@ -336,11 +383,13 @@ def replay(case):
         hist = tuple(case["history"])
         if not hist:
             return False, "empty"
-        pr = _pristine((d, hist[-1], os.path.dirname(os.path.dirname(os.path.dirname(os.path.abspath(__file__))))))
         r = forked.run_forked(_exec_history, (d, hist))
         if r[0] != "ok":
             return True, repr(r)[:300]
-        dg, desc, _ = r[1][-1]
+        dg, desc, _, ver = r[1][-1]
+        if menu(d)[hist[-1]][0] == "fs":
+            return False, "fs event"
+        pr = _pristine((d, hist[-1], ver if hist[-1] in USES_SUB else "v1", os.path.dirname(os.path.dirname(os.path.dirname(os.path.abspath(__file__))))))
         return (dg != pr[0]), "history outcome %s ; pristine %s" % (desc[:150], pr[1][:150])
     finally:
         shutil.rmtree(d, ignore_errors=True)
